@@ -78,7 +78,7 @@ func has(opts []string, k string) bool {
 	return false
 }
 
-func boolp(b bool) *bool       { return &b }
+func boolp(b bool) *bool      { return &b }
 func f64p(f float64) *float64 { return &f }
 
 var (
